@@ -32,7 +32,7 @@ var (
 	c09CAs   = []string{"trusted", "via-inter", "inter-missing", "other-ca", "same-name-other-key", "self-signed"}
 	c09Vals  = []string{"valid", "expired", "not-yet"}
 	c09EKUs  = []string{"server", "client", "both", "absent", "unrelated", "any"}
-	c09Names = []string{"expected", "other", "several-incl", "several-excl", "none", "dns-only", "rid-only", "malformed", "near-miss"}
+	c09Names = []string{"expected", "other", "several-incl", "several-excl", "none", "dns-only", "rid-only", "malformed", "near-miss", "foreign-oid"}
 	c09Pins  = []string{"none", "m256", "m512", "m224", "m384", "non32", "non64", "wrong20", "non32+m256", "m512+non32", "non32+wrong20", "wrong20+m256", "pin-of-issuer"}
 	c09Roles = []string{"server", "client"} // who is being verified
 	c09Modes = []string{"receptor", "dns-host", "dns-nohost"}
@@ -46,10 +46,11 @@ type C09Cert struct {
 }
 
 type C09Scn struct {
-	Cert C09Cert `json:"cert"`
-	Pins string  `json:"pins"`
-	Role string  `json:"role"`
-	Mode string  `json:"mode"`
+	Cert C09Cert   `json:"cert"` // the certificate the pin list is computed from ("the pinned certificate"), presented first
+	Pins string    `json:"pins"`
+	Role string    `json:"role"`
+	Mode string    `json:"mode"`
+	Then []C09Cert `json:"then,omitempty"` // further peers presented afterwards to the SAME verifier / configuration
 }
 
 const (
@@ -64,6 +65,7 @@ type c09Made struct {
 	ids   []string
 	dns   []string
 	malf  bool
+	foreign []string // values carried in otherName entries of a non-receptor OID (never receptor names)
 	issuerRaw []byte
 }
 
@@ -85,8 +87,12 @@ func c09Init() {
 	c09Logger = logger.NewReceptorLogger("c09")
 }
 
-func sanExtension(ids, dns []string, malformed bool) *pkix.Extension {
+func sanExtension(ids, dns []string, malformed bool, foreign ...string) *pkix.Extension {
 	var content []byte
+	for _, v := range foreign {
+		content = append(content, DerItem{Kind: "on", OID: "other", StrTag: 12, Class: 2, Val: v}.encode()...)
+		content = append(content, DerItem{Kind: "on", OID: "longer", StrTag: 12, Class: 2, Val: v}.encode()...)
+	}
 	for _, d := range dns {
 		content = append(content, derTLV(2, false, 2, []byte(d), false)...)
 	}
@@ -126,6 +132,9 @@ func c09Make(c C09Cert) *c09Made {
 		m.ids = []string{c09ID}
 	case "malformed":
 		m.dns, m.malf = []string{c09Host}, true
+	case "foreign-oid":
+		// the expected ID appears only under other OIDs (one unrelated, one an extension of the receptor OID)
+		m.ids, m.dns, m.foreign = []string{"node-y"}, []string{c09Host}, []string{c09ID}
 	case "near-miss":
 		m.ids, m.dns = []string{c09ID + "2", "node-", "Node-X", c09ID + " "}, []string{"xx.example.com", "example.com", "x.example.com.evil.org"}
 	}
@@ -150,7 +159,7 @@ func c09Make(c C09Cert) *c09Made {
 	case "any":
 		tmpl.ExtKeyUsage = []x509.ExtKeyUsage{x509.ExtKeyUsageAny}
 	}
-	if ext := sanExtension(m.ids, m.dns, m.malf); ext != nil {
+	if ext := sanExtension(m.ids, m.dns, m.malf, m.foreign...); ext != nil {
 		tmpl.ExtraExtensions = []pkix.Extension{*ext}
 	}
 	leafKey := vx.Key("c09leaf")
@@ -249,8 +258,35 @@ func c09PinList(kind string, m *c09Made) (pins [][]byte, judge int) {
 	return pins, -1
 }
 
-// c09Expect is the reference decision procedure, written from the statement.
-func c09Expect(s C09Scn, m *c09Made) (accept bool, unconstrained bool, why string) {
+// pinJudge decides the pin condition for a presented certificate against an actual pin list by comparing digests:
+// +1 passes, -1 must be refused, 0 unconstrained (a matching entry next to an unusable one).
+func pinJudge(pins [][]byte, m *c09Made) int {
+	if len(pins) == 0 {
+		return +1
+	}
+	anyMatch, anyWrong := false, false
+	for _, p := range pins {
+		kind := map[int]string{28: "224", 32: "256", 48: "384", 64: "512"}[len(p)]
+		if kind == "" {
+			anyWrong = true
+			continue
+		}
+		if string(sum(kind, m.leaf.Raw)) == string(p) {
+			anyMatch = true
+		}
+	}
+	switch {
+	case anyMatch && anyWrong:
+		return 0
+	case anyMatch:
+		return +1
+	}
+	return -1
+}
+
+// c09Expect is the reference decision procedure, written from the statement. pins is the verifier's actual pin list
+// (nil: derive it from s.Pins for certificate m itself).
+func c09Expect(s C09Scn, m *c09Made, pinsOpt ...[][]byte) (accept bool, unconstrained bool, why string) {
 	chain := s.Cert.CA == "trusted" || s.Cert.CA == "via-inter"
 	if !chain {
 		return false, false, "chain"
@@ -271,6 +307,9 @@ func c09Expect(s C09Scn, m *c09Made) (accept bool, unconstrained bool, why strin
 		return false, false, "usage"
 	}
 	_, pj := c09PinList(s.Pins, m)
+	if len(pinsOpt) > 0 {
+		pj = pinJudge(pinsOpt[0], m)
+	}
 	if pj < 0 {
 		return false, false, "pin"
 	}
@@ -350,12 +389,43 @@ func execC09Verify(b []byte) vx.Verdict {
 	if s.Role == "client" {
 		vt = netceptor.VerifyClient
 	}
-	err := netceptor.ReceptorVerifyFunc(tlscfg, pins, host, ht, vt, c09Logger)(m.chain, nil)
-	return c09Judge(s, m, err == nil, fmt.Sprint(err), "verify-func")
+	verifier := netceptor.ReceptorVerifyFunc(tlscfg, pins, host, ht, vt, c09Logger)
+	err := verifier(m.chain, nil)
+	v := c09Judge(s, m, err == nil, fmt.Sprint(err), "verify-func")
+	if v.Status != "ok" || len(s.Then) == 0 {
+		return v
+	}
+	// the same verifier is used for further peers (a listener's or backend's verifier lives as long as its configuration)
+	for i, c := range s.Then {
+		mi := c09Make(c)
+		err := verifier(mi.chain, nil)
+		si := C09Scn{Cert: c, Pins: s.Pins, Role: s.Role, Mode: s.Mode}
+		vi := c09JudgePins(si, mi, pinsOrEmpty(pins), err == nil, fmt.Sprint(err), fmt.Sprintf("verify-func-reused#%d", i+1))
+		if vi.Status != "ok" {
+			return vi
+		}
+		v.Labels = append(v.Labels, "verifier-reused")
+		v.Unconstrained += vi.Unconstrained
+		if vi.Nontrivial {
+			v.Nontrivial = true
+		}
+	}
+	v.Labels = dedup(v.Labels)
+	return v
 }
 
 func c09Judge(s C09Scn, m *c09Made, accepted bool, errText string, level string) vx.Verdict {
+	return c09JudgePins(s, m, nil, accepted, errText, level)
+}
+
+func c09JudgePins(s C09Scn, m *c09Made, pins [][]byte, accepted bool, errText string, level string) vx.Verdict {
 	want, uncon, why := c09Expect(s, m)
+	if pins != nil {
+		want, uncon, why = c09Expect(s, m, pins)
+	}
+	if i := strings.Index(level, "#"); i > 0 {
+		level = level[:i]
+	}
 	nt, cls := c09Nontrivial(s, m)
 	labels := []string{"level:" + level, cls, "role:" + s.Role, "mode:" + s.Mode}
 	if !want {
@@ -513,6 +583,7 @@ func execC09TLS(b []byte) vx.Verdict {
 	defer n.Shutdown()
 	rootFile := writeFile(dir, "root.crt", vx.CertPEM(c09Root.Cert))
 	var herr error
+	var again func(mi *c09Made) error
 	if s.Role == "server" {
 		if s.Mode == "dns-nohost" {
 			return vx.OK(false, "tls:client-needs-a-server-name")
@@ -533,8 +604,9 @@ func execC09TLS(b []byte) vx.Verdict {
 		if err != nil {
 			return vx.Inconclusive("GetClientTLSConfig: %v", err)
 		}
-		serverCfg := &tls.Config{Certificates: []tls.Certificate{tlsCertOf(m)}}
-		herr = handshake(serverCfg, clientCfg)
+		again = func(mi *c09Made) error {
+			return handshake(&tls.Config{Certificates: []tls.Certificate{tlsCertOf(mi)}}, clientCfg)
+		}
 	} else {
 		// we are the server verifying a client certificate; the name is not checked on this path (DNS mode, no host)
 		s.Mode = "dns-nohost"
@@ -545,13 +617,45 @@ func execC09TLS(b []byte) vx.Verdict {
 		if err != nil {
 			return vx.Inconclusive("PrepareTLSServerConfig: %v", err)
 		}
-		clientCfg := &tls.Config{Certificates: []tls.Certificate{tlsCertOf(m)}, InsecureSkipVerify: true}
-		herr = handshake(serverCfg, clientCfg)
+		again = func(mi *c09Made) error {
+			return handshake(serverCfg, &tls.Config{Certificates: []tls.Certificate{tlsCertOf(mi)}, InsecureSkipVerify: true})
+		}
 	}
-	if herr != nil && (strings.HasPrefix(herr.Error(), "harness:") || strings.Contains(herr.Error(), "i/o timeout")) {
+	plumbing := func(e error) bool {
+		return e != nil && (strings.HasPrefix(e.Error(), "harness:") || strings.Contains(e.Error(), "i/o timeout"))
+	}
+	herr = again(m)
+	if plumbing(herr) {
 		return vx.Inconclusive("handshake plumbing: %v", herr)
 	}
-	return c09Judge(s, m, herr == nil, fmt.Sprint(herr), "tls-handshake")
+	v := c09Judge(s, m, herr == nil, fmt.Sprint(herr), "tls-handshake")
+	if v.Status != "ok" {
+		return v
+	}
+	for i, c := range s.Then {
+		mi := c09Make(c)
+		e := again(mi)
+		if plumbing(e) {
+			return vx.Inconclusive("handshake plumbing: %v", e)
+		}
+		vi := c09JudgePins(C09Scn{Cert: c, Pins: s.Pins, Role: s.Role, Mode: s.Mode}, mi, pinsOrEmpty(pins), e == nil, fmt.Sprint(e), fmt.Sprintf("tls-handshake-reused#%d", i+1))
+		if vi.Status != "ok" {
+			return vi
+		}
+		v.Labels = append(v.Labels, "configuration-reused")
+		if vi.Nontrivial {
+			v.Nontrivial = true
+		}
+	}
+	v.Labels = dedup(v.Labels)
+	return v
+}
+
+func pinsOrEmpty(p [][]byte) [][]byte {
+	if p == nil {
+		return [][]byte{}
+	}
+	return p
 }
 
 // ---- level 3: mutually authenticated stream listener on a two-node mesh --------------------------------------
@@ -692,7 +796,11 @@ func c09MakeFor(c C09Cert, id string) *c09Made {
 	tmpl.ExtraExtensions = nil
 	tmpl.Extensions = nil
 	tmpl.DNSNames, tmpl.IPAddresses = nil, nil
-	if ext := sanExtension(ids, m.dns, m.malf); ext != nil {
+	var foreign []string
+	for _, v := range m.foreign {
+		foreign = append(foreign, strings.ReplaceAll(v, c09ID, id))
+	}
+	if ext := sanExtension(ids, m.dns, m.malf, foreign...); ext != nil {
 		tmpl.ExtraExtensions = []pkix.Extension{*ext}
 	}
 	tmpl.AuthorityKeyId, tmpl.SubjectKeyId = nil, nil
